@@ -52,12 +52,12 @@ type c19Result struct {
 	Works    []bool   `json:"works"` // per goroutine: a call through the returned proxy / client succeeded
 	Accepted []int    `json:"accepted"`
 	Open     []int    `json:"open"`
-	PoolOK   bool     `json:"pool_ok"`    // the pool could be read
-	PoolSize int      `json:"pool_size"`  // entries besides the directory's
-	PoolSame bool     `json:"pool_same"`  // every hook-path client is the pooled one of its endpoint
-	Timeout  bool     `json:"timeout"`    // some goroutine did not return within the child's deadline
-	Held     int      `json:"held"`       // connections that were held at the moment of the release
-	Expected int      `json:"expected"`   // connections the release waited for
+	PoolOK   bool     `json:"pool_ok"`   // the pool could be read
+	PoolSize int      `json:"pool_size"` // entries besides the directory's
+	PoolSame bool     `json:"pool_same"` // every hook-path client is the pooled one of its endpoint
+	Timeout  bool     `json:"timeout"`   // some goroutine did not return within the child's deadline
+	Held     int      `json:"held"`      // connections that were held at the moment of the release
+	Expected int      `json:"expected"`  // connections the release waited for
 }
 
 // ---------- harness-owned listener ----------
@@ -157,8 +157,8 @@ func (g *c19Gate) counts() (int, int) {
 type c19Actor struct{}
 
 func (c19Actor) Receive(m *net.Message, from bus.Channel) error { return nil }
-func (c19Actor) Activate(activation bus.Activation) error      { return nil }
-func (c19Actor) OnTerminate()                                  {}
+func (c19Actor) Activate(activation bus.Activation) error       { return nil }
+func (c19Actor) OnTerminate()                                   {}
 
 func c19Object() bus.BasicObject {
 	return bus.NewBasicObject(c19Actor{}, object.MetaObject{
